@@ -8520,3 +8520,14 @@ let live_records s =
 
 let open_streams s =
   length (filter (fun c -> c.k_stream) s.e_conns)
+
+(** val bUFWRITER : nat **)
+
+let bUFWRITER =
+  N.to_nat (Npos (XO (XO (XO (XO (XO (XO (XO (XO (XO (XO (XO (XO (XO
+    XH))))))))))))))
+
+(** val k_BODY : nat **)
+
+let k_BODY =
+  add (add pROBE_MAX bUFWRITER) cHUNK_BUF
